@@ -648,6 +648,29 @@ func (w *simWorld) grCompare(st *grState) {
 			}
 		}
 	}
+	// C02: the accepted counter of each family agrees with the routes retained for it (a family whose
+	// routes are kept stale while another family is dropped keeps its count)
+	if !st.deleted && st.up {
+		// (the API reports the counters of an established session only)
+		if ps := w.listPeers()[st.p.cfg.Addr]; ps != nil {
+			for _, a := range ps.Peer.AfiSafis {
+				if a.State == nil || a.Config == nil || a.Config.Family == nil {
+					continue
+				}
+				n := 0
+				for k := range st.routes {
+					if uint16(a.Config.Family.Afi) == k.Fam.AFI && uint8(a.Config.Family.Safi) == k.Fam.SAFI {
+						n++
+					}
+				}
+				if int(a.State.Accepted) != n {
+					w.violate("C02", "accepted-counter", fmt.Sprintf("p0 afi=%d", a.Config.Family.Afi), fmt.Sprintf("ListPeer accepted=%d for the family, %d of its routes are held (up=%v restarting=%v)", a.State.Accepted, n, st.up, st.restart))
+				} else {
+					w.probe("gr_accepted_counter_compared")
+				}
+			}
+		}
+	}
 	var fp []string
 	for _, fam := range st.p.families() {
 		glob, err := w.listPaths(api.TableType_TABLE_TYPE_GLOBAL, "", fam, false)
